@@ -22,14 +22,17 @@ pub fn family_cfg() -> GenCfg {
 
 /// Generate a well-typed program and apply one edit.
 pub fn edited(t: &mut Tape, ctx: &mut Ctx, styled: bool) -> Result<Option<Edited>, Failure> {
+    // the edit's own choices come first on the tape, so that a long program does not starve them
+    let mut et = Tape::new((0..12).map(|_| t.next()).collect());
+    let style_seed = t.next() as u64;
     let g = gen::generate(t, family_cfg());
     let base_text = render::render(&g.prog, &Style::canonical());
     require_well_typed(&g, &base_text)?;
-    let Some((prog, kind)) = nearmiss::edit(t, &g.prog) else {
+    let Some((prog, kind)) = nearmiss::edit(&mut et, &g.prog) else {
         ctx.exclude("no-edit-site");
         return Ok(None);
     };
-    let style = if styled { Style::from_seed(t.next() as u64) } else { Style::canonical() };
+    let style = if styled { Style::from_seed(style_seed) } else { Style::canonical() };
     let text = render::render(&prog, &style);
     ctx.label(&format!("edit:{}", kind.name()));
     Ok(Some(Edited { base: g, prog, kind, text, style }))
